@@ -89,6 +89,18 @@ def unscale(nd, case, power=1):
     return [nd[0] * sc[1] ** power, nd[1] * sc[0] ** power]
 
 
+def uncoord(row, case):
+    """implementation coordinates (three fractions) -> coordinates on the unscaled mesh at the
+    origin, as Fractions (offset and scale removed exactly)"""
+    off = case.get('offset') or [0, 0, 0]
+    return [Fraction(*unscale(x, case)) - o for x, o in zip(row, off)]
+
+
+def coord_int(row, case):
+    v = uncoord(row, case)
+    return [int(x) for x in v] if all(x.denominator == 1 for x in v) else None
+
+
 def frac_int(nd):
     f = Fraction(nd[0], nd[1])
     return int(f) if f.denominator == 1 else None
@@ -97,7 +109,7 @@ def frac_int(nd):
 # ------------------------------------------------------------- impl runner
 def run_impl(ctx, cases, tag='impl'):
     spec = {'work': str(ctx.scratch / 'work'), 'out': str(ctx.scratch / f'{tag}_out.json'),
-            'cases': [{k: c[k] for k in ('id', 'nodes', 'blocks', 'want', 'scale', 'move') if k in c}
+            'cases': [{k: c[k] for k in ('id', 'nodes', 'blocks', 'want', 'scale', 'offset', 'move', 'moved_blocks', 'history') if k in c}
                       for c in cases]}
     sp = ctx.scratch / f'{tag}_spec.json'
     sp.write_text(json.dumps(spec))
@@ -181,8 +193,8 @@ def case_checks(case, r, expect_ok=True):
         lines = []
         bad = False
         for ln in ob['lines']:
-            if ln[0] == 'v' and len(ln) == 4 and all(frac_int(unscale(x, case)) is not None for x in ln[1:]):
-                lines.append('OV ' + c3([frac_int(unscale(x, case)) for x in ln[1:]]))
+            if ln[0] == 'v' and len(ln) == 4 and coord_int(ln[1:], case) is not None:
+                lines.append('OV ' + c3(coord_int(ln[1:], case)))
             elif ln[0] == 'f':
                 lines.append('OF ' + zl(ln[1:]))
             else:
@@ -191,11 +203,11 @@ def case_checks(case, r, expect_ok=True):
         coords = lib.coq_list([c3(n[1]) for n in case['nodes']])
         out.append('false' if bad else f'check_obj_write m{i} {coords} ol{i}')
         rd = ob['read']
-        okc = all(frac_int(unscale(x, case)) is not None for row in rd['node_xyz'] for x in row)
+        okc = all(coord_int(row, case) is not None for row in rd['node_xyz'])
         if not okc or set(rd['elements']) - {'tri', 'quad', 'polygon'}:
             out.append('false')
         else:
-            nodes = lib.coq_list(['(%s, %s)' % (lib.coq_Z(a), c3([frac_int(unscale(x, case)) for x in row]))
+            nodes = lib.coq_list(['(%s, %s)' % (lib.coq_Z(a), c3(coord_int(row, case)))
                                   for a, row in zip(rd['nodes'], rd['node_xyz'])])
             parts = []
             for k in ('tri', 'quad', 'polygon'):
@@ -368,7 +380,7 @@ def oracle(case, r):
                 bad.append(('to_surface_nodes', None))
             # the surface mesh object pairs every kept node id with that node's coordinates
             for nid, row in zip(ts['nodes'], ts['node_xyz']):
-                if nid not in xyz or [Fraction(*unscale(x, case)) for x in row] != list(map(Fraction, xyz[nid])):
+                if nid not in xyz or uncoord(row, case) != list(map(Fraction, xyz[nid])):
                     bad.append(('to_surface_node_coordinates', {'node': nid}))
                     break
     ob = r.get('obj')
@@ -378,8 +390,7 @@ def oracle(case, r):
         else:
             vs = [ln for ln in ob['lines'] if ln[0] == 'v']
             fs = [ln for ln in ob['lines'] if ln[0] == 'f']
-            if [[Fraction(*unscale(x, case)) for x in ln[1:]] for ln in vs] != \
-                    [list(map(Fraction, n[1])) for n in case['nodes']]:
+            if [uncoord(ln[1:], case) for ln in vs] != [list(map(Fraction, n[1])) for n in case['nodes']]:
                 bad.append(('obj_vertices', None))
             objf = []
             for ln in fs:
@@ -417,6 +428,47 @@ def oracle(case, r):
     return bad
 
 
+def round_result(rnd):
+    """views of one round as a result dict (a view taken twice in a round: the last one)"""
+    return dict(rnd)
+
+
+def judge(case, r):
+    """the property on everything the implementation returned: one view each on fresh objects, or
+    several rounds of views on ONE object (each round judged, later views must equal earlier ones)"""
+    if 'history' not in case:
+        return oracle(case, r)
+    bad = []
+    seen = {}
+    for k, rnd in enumerate(r.get('history') or []):
+        tag = '' if k == 0 else 'later_round_%d:' % k
+        rr = round_result(rnd)
+        if 'surface' in rr:
+            bad += [(tag + a, b) for a, b in oracle(case, rr)]
+        for view, val in rr.items():
+            if is_err(val):
+                bad.append((tag + view + '_raises', val.get('msg')))
+            elif view in seen and seen[view] != val:
+                bad.append(('later_view_differs:' + view, {'round': k}))
+            seen.setdefault(view, val)
+    return bad[:6]
+
+
+def expand_history(cases, res):
+    extra = []
+    for c in cases:
+        if 'history' not in c:
+            continue
+        for k, rnd in enumerate(res[c['id']].get('history') or []):
+            c2 = dict(c, id=len(cases) + len(extra), derived=True, first_case=c['id'],
+                      meta=dict(c['meta'], stage='round_%d' % k))
+            rr = round_result(rnd)
+            rr['id'] = c2['id']
+            res[c2['id']] = rr
+            extra.append(c2)
+    return extra
+
+
 # ------------------------------------------------------------------ cases
 def gen_cases(ctx):
     rng = ctx.rng
@@ -434,6 +486,34 @@ def gen_cases(ctx):
             sc = [(1, 2 ** 11), (1, 2 ** 13), (2 ** 7, 1)][(k // 4) % 3]
             c['scale'] = list(sc)
             c['meta'] = dict(c['meta'], scale='%d/%d' % sc)
+        # far from the origin (exact integer offsets ~1e6..1e7 cell sizes, also combined with the small
+        # scales): the surface and the OBJ text must not care; volumes are not requested there (femio's
+        # centroid volume kernels accumulate origin-based determinants in float32 and lose all accuracy at
+        # such offsets — a C11 matter, see notes/C10.md)
+        if k % 6 == 5:
+            c['offset'] = [rng.choice([-1, 1]) * rng.randint(2 * 10 ** 6, 2 * 10 ** 7) for _ in range(3)]
+            c['meta'] = dict(c['meta'], offset='1e6..1e7')
+            c['want'] = [w for w in want_for(c) if w != 'volumes']
+        cases.append(c)
+    # same-object histories: several rounds of views on ONE object; every later view is compared with
+    # the model and with the exact oracle, and must equal the earlier one
+    templates = [
+        [['obj'], ['surface', 'to_surface', 'obj']],
+        [['to_surface'], ['to_surface', 'surface', 'fistr']],
+        [['surface', 'obj'], ['obj', 'to_surface', 'surface']],
+        [['to_surface', 'fistr'], ['surface', 'obj'], ['obj', 'surface', 'to_surface']],
+        [['obj', 'obj'], ['fistr', 'surface', 'to_surface']],
+    ]
+    hkinds = ['prism', 'pyr', 'mix', 'hexpyr', 'tetprism', 'tet', 'hex']
+    for k in range(21 if ctx.tier == 'quick' else 210):
+        kind = hkinds[k % len(hkinds)]
+        m = c10_gen.gen_mesh(rng, kind=kind, dims=rng.choice([(1, 1, 1), (2, 1, 1), (2, 2, 1), (2, 2, 2)]),
+                             max_elems=30)
+        tets_only = set(m['blocks']) <= {'tet'}
+        hist = [[op for op in rnd if op != 'fistr' or tets_only] for rnd in templates[k % len(templates)]]
+        hist = [list(dict.fromkeys(rnd)) if k % len(templates) != 4 else rnd for rnd in hist]
+        c = {'nodes': m['nodes'], 'blocks': m['blocks'], 'valid': True, 'history': hist, 'want': ['history'],
+             'meta': dict(m['meta'], history='|'.join(','.join(r) for r in hist))}
         cases.append(c)
     # single reference-like elements of each type (any table slip shows here first)
     for kind in ['hex', 'tet', 'pyr', 'prism']:
@@ -480,7 +560,8 @@ def gen_cases(ctx):
 
 def signature(case, check):
     return {'check': check, 'kind': case['meta'].get('kind'), 'types': sorted(case['blocks']),
-            'scale': case['meta'].get('scale', '1')}
+            'scale': case['meta'].get('scale', '1'), 'offset': case['meta'].get('offset', '0'),
+            'history': case['meta'].get('history', 'fresh_object_per_view')}
 
 
 def shrink(ctx, case, still_fails, budget=8):
@@ -500,7 +581,7 @@ def shrink(ctx, case, still_fails, budget=8):
         cands = cands[:40]
         for i, c in enumerate(cands):
             c['id'] = i
-            c['want'] = want_for(c) if cur.get('valid', True) else cur['want']
+            c['want'] = cur['want']
         try:
             res = run_impl(ctx, cands, tag='shrink')
         except Exception:
@@ -575,8 +656,11 @@ def main(ctx):
         c.setdefault('want', want_for(c))
     res = run_impl(ctx, cases)
     ctx.log(f'implementation ran on {len(cases)} meshes')
+    cases += expand_history(cases, res)
     for c in cases:
         meta = c['meta']
+        ctx.count('offset:' + str(meta.get('offset', '0')))
+        ctx.count('history:' + str(meta.get('stage', 'container' if 'history' in c else 'fresh_object_per_view')))
         n_el = sum(len(v) for v in c['blocks'].values())
         ctx.count('kind:' + str(meta.get('kind')))
         ctx.count('scale:' + str(meta.get('scale', '1')))
@@ -595,10 +679,10 @@ def main(ctx):
     n_or = 0
     oracle_bad = {}
     for c in cases:
-        if not c['valid']:
+        if not c['valid'] or c.get('derived'):
             continue
         n_or += 1
-        b = oracle(c, res[c['id']])
+        b = judge(c, res[c['id']])
         if b:
             oracle_bad[c['id']] = b
     ctx.notes['search_evaluations'] = n_or
@@ -607,9 +691,10 @@ def main(ctx):
     # 5. correspondence (model evaluated inside Coq)
     failing = {}
     if model_ok:
-        failing = run_coq_cases(ctx, cases, res, 'Corr')
+        failing = run_coq_cases(ctx, [c for c in cases if 'history' not in c or c.get('derived')], res, 'Corr')
         n_dis = len(failing)
-        ctx.corr = {'cases': len(cases), 'checks_per_case': CHECKS, 'disagreements': n_dis,
+        ctx.corr = {'cases': sum(1 for c in cases if 'history' not in c or c.get('derived')),
+                    'checks_per_case': CHECKS, 'disagreements': n_dis,
                     'valid_stream': sum(1 for c in cases if c['valid']),
                     'second_stream': sum(1 for c in cases if not c['valid'])}
         ctx.log(f'correspondence: {len(cases)} cases, {n_dis} with a failing check')
@@ -623,13 +708,14 @@ def main(ctx):
         chk = bads[0][0]
 
         def still(cc, rr, chk=chk):
-            return any(b[0] == chk for b in oracle(cc, rr))
+            return any(b[0] == chk for b in judge(cc, rr))
         small = shrink(ctx, c, still)
         rr = run_impl(ctx, [dict(small, id=0)], tag='shrunk')[0]
-        ob = oracle(dict(small, id=0), rr)
+        ob = judge(dict(small, id=0), rr)
         ctx.violation('impl-violation',
                       {'nodes': small['nodes'], 'blocks': small['blocks'], 'meta': c['meta'],
-                       'scale': small.get('scale'), 'want': small['want'], 'shrunk_from_elements': sum(len(v) for v in c['blocks'].values())},
+                       'scale': small.get('scale'), 'offset': small.get('offset'),
+                       'history': small.get('history'), 'want': small['want'], 'shrunk_from_elements': sum(len(v) for v in c['blocks'].values())},
                       'surface = faces owned by exactly one element, closed, outward, enclosing the element '
                       'volumes; to_surface / OBJ / fistr describe the same faces',
                       {'failed_checks': [[a, b] for a, b in (ob or bads)][:4]},
@@ -637,13 +723,13 @@ def main(ctx):
                       signature=signature(c, chk), what=f'{chk} on a {c["meta"].get("kind")} mesh')
         reported += 1
     for cid, chks in sorted(failing.items(), key=lambda kv: kv[0])[:6]:
-        if cid in oracle_bad:
-            continue
         c = cases[cid]
+        if cid in oracle_bad or c.get('first_case') in oracle_bad:
+            continue
         what = 'scratch file did not compile' if chks is None else ','.join(chks)
         ctx.violation('correspondence',
                       {'nodes': c['nodes'], 'blocks': c['blocks'], 'meta': c['meta'], 'want': c['want'],
-                       'scale': c.get('scale')},
+                       'scale': c.get('scale'), 'offset': c.get('offset'), 'history': c.get('history')},
                       'model = implementation on ' + what, {'failing_checks': chks,
                                                            'impl': {k: (v if is_err(v) else '...') for k, v in res[cid].items() if k != 'id'}},
                       'correspondence C10 (Corr.v checks ' + what + ')', found_input=False,
@@ -670,17 +756,23 @@ def replay(path):
     ctx = lib.Ctx(PID, 'quick')
     case = {'id': 0, 'nodes': c['nodes'], 'blocks': c['blocks'], 'meta': c.get('meta', {}),
             'want': c.get('want') or want_for(c), 'valid': True}
-    if c.get('scale'):
-        case['scale'] = c['scale']
+    for k in ('scale', 'offset'):
+        if c.get(k):
+            case[k] = c[k]
+    if c.get('history'):
+        case.update(history=c['history'], want=['history'])
     r = run_impl(ctx, [case], tag='replay')[0]
-    bad = oracle(case, r)
+    bad = judge(case, r)
     print('implementation:', json.dumps({k: v for k, v in r.items() if k in ('surface', 'fistr')})[:1500])
     print('oracle:', bad)
     ok, _, _ = lib.coq_make(['C10/Corr.vo'])
     if ok:
-        f = run_coq_cases(ctx, [case], {0: r}, 'Replay')
-        print('model vs implementation, failing checks:', f.get(0, []))
-        bad = bad or f.get(0, [])
+        cs = [case]
+        res = {0: r}
+        cs += expand_history(cs, res)
+        f = run_coq_cases(ctx, [x for x in cs if 'history' not in x or x.get('derived')], res, 'Replay')
+        print('model vs implementation, failing checks:', f)
+        bad = bad or [x for v in f.values() for x in (v or ['compile'])]
     print('property', 'VIOLATED' if bad else 'holds', 'on this input')
     return 1 if bad else 0
 
